@@ -102,7 +102,7 @@ def evaluate(res, ctx, name, ops, recs, err, rc, check_model=True, pid="C03", cl
         res.violation("%s: crash run died (rc=%s): %s" % (name, rc, err[-300:]), {"ops": ops, "stderr": err[-2000:]})
         return 0
     for r in oprecs:
-        if r["res"].startswith(("panic", "err:", "bad:", "dead")) and not r["op"].startswith(("get", "bget")) and r["res"] not in ("err:mergeids",):
+        if r["res"].startswith(("panic", "err:", "bad:", "dead")) and not r["op"].startswith(("get", "bget")) and r["res"] not in ("err:mergeids", "err:committed"):
             if r["op"].split()[0] in ("put", "get", "del", "bput", "bget", "bdel") and r["op"].split()[1] == "-":
                 continue
             res.violation("%s: workload op failed: %s -> %s" % (name, r["op"], r["res"]), {"ops": ops[:r["i"] + 1]})
@@ -218,6 +218,17 @@ def evaluate(res, ctx, name, ops, recs, err, rc, check_model=True, pid="C03", cl
     return len(images)
 
 
+def classify_known(im, ops):
+    """stable keys of recorded findings (known_findings.txt)"""
+    io = 0
+    for op in ops:
+        if op.startswith("open "):
+            io = int(op.split()[6])
+    if io == 1 and im.get("cut") and im.get("open") == "err:crc":
+        return "mmap-powerloss-cut-inside-record"
+    return None
+
+
 def workload(rng, io=0, kind="mixed", nsteps=14):
     """short crash workload on directory d (ends with close)"""
     cfg = engine.rand_cfg(rng, io=io, fs=rng.choice([4096, 20000, 65536]))
@@ -236,66 +247,90 @@ def workload(rng, io=0, kind="mixed", nsteps=14):
 
 
 def sync_policy_check(res, name, ops, recs):
-    """C13 on the event log: at the return of every public call, which bytes are covered by a completed sync."""
+    """C13 on the event log: at the return of every public call, which bytes are covered by a completed sync.
+    Every write event is attributed to the public call that issued it; a completed sync of a file covers
+    everything written to it before."""
     oprecs = [r for r in recs if r["kind"] == "op"]
     events = [r for r in recs if r["kind"] == "event"]
     cfg = None
     written = {}
     synced = {}
     pend = None
-    unsynced_putdel = 0      # record bytes appended by acknowledged Put/Delete and not yet synced (engine's definition)
+    putdel = []        # (file, start, end) byte ranges appended by acknowledged Put/Delete calls
+    batch = None       # ranges appended by the open batch; None when no batch
     batch_sync = False
     problems = []
-    ev_i = 0
     rotated_unsynced = []
+
+    def uncovered(ranges):
+        return sum(max(0, e - max(b, synced.get(f, 0))) for f, b, e in ranges)
     for r in oprecs:
         f = r["op"].split()
         if f[0] == "open":
             cfg = {"sync": int(f[3]), "bps": int(f[4]), "io": int(f[6])}
-        before_written = dict(written)
-        # replay this op's events
+            written, synced, putdel, batch = {}, {}, [], None
+        mine = []
         for e in events[r["ev_from"]:r["ev_to"]]:
             if pend is not None:
-                synced[pend[0]] = pend[1]
+                synced[pend[0]] = max(synced.get(pend[0], 0), pend[1])
                 pend = None
             fn = e["file"]
             if e["ev"] == "open":
-                # switching to a new data file: the previous active file must be flushed already
-                if fn.startswith("d/") and fn.endswith(".data") and fn not in written:
+                if fn.startswith("d/") and fn.endswith(".data") and fn not in written and f[0] != "open":
                     for g, w in written.items():
-                        if g.startswith("d/") and g.endswith(".data") and synced.get(g, 0) < w and f[0] != "open":
+                        if g.startswith("d/") and g.endswith(".data") and synced.get(g, 0) < w:
                             rotated_unsynced.append((r["op"], g, synced.get(g, 0), w))
-                written.setdefault(fn, 0)
-                synced.setdefault(fn, 0)
+                if fn not in written:
+                    # pre-existing content (restart) counts as flushed: Close flushed it
+                    written[fn] = e["n"]
+                    synced[fn] = e["n"]
             elif e["ev"] == "write":
-                written[fn] = written.get(fn, 0) + e["n"]
+                start = written.get(fn, 0)
+                written[fn] = start + e["n"]
+                mine.append((fn, start, written[fn]))
             elif e["ev"] == "sync":
-                pend = (fn, written.get(fn, 0))
+                pend = (fn, written.get(fn) or 0)
             elif e["ev"] == "truncate":
-                written[fn] = min(written.get(fn, 0), e["n"])
+                if written.get(fn) is not None:
+                    written[fn] = min(written[fn], e["n"])
                 if cfg and cfg["io"] == 1:
-                    pend = (fn, written.get(fn, 0))
+                    pend = (fn, written.get(fn) or e["n"])
         if pend is not None:
-            synced[pend[0]] = pend[1]
+            synced[pend[0]] = max(synced.get(pend[0], 0), pend[1])
             pend = None
+        mine = [x for x in mine if x[0].startswith("d/") and x[0].endswith(".data")]
+        if f[0] == "bnew":
+            batch = []
+            batch_sync = len(f) > 1 and f[1] == "1"
+        if batch is not None and f[0] in ("bput", "bdel", "bcommit"):
+            batch += mine
         if r["res"] != "ok":
             continue
-        data = {g: w for g, w in written.items() if g.startswith("d/") and g.endswith(".data")}
-        unsynced = sum(w - synced.get(g, 0) for g, w in data.items())
         if f[0] in ("put", "del") and cfg:
-            if cfg["sync"] == 1 and unsynced != 0:
-                problems.append("SyncStrategy Always: `%s` returned with %d unflushed bytes" % (r["op"], unsynced))
+            putdel += mine
+            putdel = [x for x in putdel if uncovered([x]) > 0]
+            u = uncovered(putdel)
+            if cfg["sync"] == 1 and u != 0:
+                problems.append("SyncStrategy Always: `%s` returned with %d unflushed bytes of Put/Delete records" % (r["op"], u))
             if cfg["sync"] == 2:
-                # padding (at most 7 bytes per block) is not a record byte
-                appended = sum(w - before_written.get(g, 0) for g, w in data.items())
-                if unsynced >= cfg["bps"] + 8 * (1 + appended // 32768) and unsynced > 0:
-                    problems.append("SyncStrategy Threshold(%d): `%s` returned with %d unflushed bytes" % (cfg["bps"], r["op"], unsynced))
-        if f[0] == "bnew":
-            batch_sync = f[1] == "1"
-        if f[0] == "bcommit" and batch_sync and unsynced != 0:
-            problems.append("Sync batch: Commit returned with %d unflushed bytes (sealing record not flushed?)" % unsynced)
-        if f[0] in ("sync", "close") and unsynced != 0:
-            problems.append("`%s` returned with %d unflushed bytes" % (r["op"], unsynced))
-    for op, g, s, w in rotated_unsynced:
-        problems.append("during `%s` the engine created a new data file while %s had %d of %d bytes flushed" % (op, g, s, w))
+                # the engine counts record bytes; block-tail padding (<= 7 bytes per block) is not a record byte
+                slack = 8 * (1 + sum(e - b for _, b, e in putdel) // 32768)
+                if u >= cfg["bps"] + slack:
+                    problems.append("SyncStrategy Threshold(%d): `%s` returned with %d unflushed bytes appended by acknowledged Puts/Deletes" % (
+                        cfg["bps"], r["op"], u))
+        if f[0] == "bcommit" and batch is not None:
+            if batch_sync and uncovered(batch) != 0:
+                problems.append("Sync batch: Commit returned with %d of the batch's bytes unflushed (sealing record?)" % uncovered(batch))
+            batch = None
+        if f[0] in ("sync",):
+            act = [g for g in written if g.startswith("d/") and g.endswith(".data") and written[g] is not None]
+            u = sum((written[g] or 0) - synced.get(g, 0) for g in act[-1:])
+            if u > 0:
+                problems.append("Sync() returned with %d unflushed bytes in the active file" % u)
+        if f[0] == "close":
+            u = sum(max(0, (w or 0) - synced.get(g, 0)) for g, w in written.items() if g.startswith("d/") and g.endswith(".data"))
+            if u > 0:
+                problems.append("Close() returned with %d unflushed bytes" % u)
+    for op, g, sy, w in rotated_unsynced:
+        problems.append("during `%s` the engine created a new data file while %s had %d of %d bytes flushed" % (op, g, sy, w))
     return problems
